@@ -2,6 +2,7 @@
 C03 helper lemmas — stream delimitation, RunLength, ASCIIHex.  Core Lean only.
 -/
 import PdfVerif.Spec.FilterEnc
+import PdfVerif.Lemmas.FiltersLit
 
 namespace PdfVerif.Filters
 open PdfVerif PdfVerif.FilterEnc
@@ -54,7 +55,7 @@ theorem rlBody_rt (t : Bytes) (ht : t = [] ∨ t = [128]) :
     | succ fuel =>
       rcases ht with rfl | rfl
       · simp [rlBody, rlFlat, rldecodeAux]
-      · simp [rlBody, rlFlat, rldecodeAux]
+      · simp [rlBody, rlFlat, rldecodeAux, rldecodeAux_cons_lit]
   | cons s segs ih =>
     intro fuel hv hf
     have hs := hv s (by simp)
@@ -71,7 +72,7 @@ theorem rlBody_rt (t : Bytes) (ht : t = [] ∨ t = [128]) :
         simp only [rlBody, RlSeg.enc, List.cons_append, List.append_assoc, rlFlat, RlSeg.flat] at hf ⊢
         have hrec := ih fuel (fun s hs => hv s (by simp [hs])) (by simp at hf ⊢; omega)
         have hn : bs.length - 1 + 1 = bs.length := by omega
-        simp only [rldecodeAux, h128, hl, hn]
+        simp only [rldecodeAux_cons_lit, h128, hl, hn]
         have hlt : bs.length - 1 < 128 := by omega
         have hnl : ¬ (bs ++ (rlBody segs ++ t)).length < bs.length := by simp
         simp only [Bool.false_eq_true, if_false, hlt, if_true, hnl]
@@ -85,7 +86,7 @@ theorem rlBody_rt (t : Bytes) (ht : t = [] ∨ t = [128]) :
         have hrec := ih fuel (fun s hs => hv s (by simp [hs])) (by simp at hf ⊢; omega)
         have hlt : ¬ (257 - n < 128) := by omega
         have hn : 257 - (257 - n) = n := by omega
-        simp only [rldecodeAux, h128, hl, Bool.false_eq_true, if_false, hlt, hrec, hn]
+        simp only [rldecodeAux_cons_lit, h128, hl, Bool.false_eq_true, if_false, hlt, hrec, hn]
 
 /-! ## ASCIIHex -/
 
